@@ -57,7 +57,7 @@ func checkAllDocs(c *explore.Ctx, scope string, idx int64, seg segment.Segment, 
 			return false
 		}
 		if !kvEqual(got, w) {
-			c.Violate(scope, idx, "C06/"+form+"/wrong/values", fmt.Sprintf("doc %d: got %q want %q", d, got, w), cas)
+			c.Violate(scope, idx, "C06/"+form+"/wrong/values", fmt.Sprintf("doc %d: got %.600q want %.600q", d, got, w), cas)
 			return false
 		}
 		if earlyStops {
@@ -73,7 +73,7 @@ func checkAllDocs(c *explore.Ctx, scope string, idx int64, seg segment.Segment, 
 			for _, j := range stops {
 				got, calls, err := visitStored(seg, d, j)
 				if err != nil || calls != j+1 || !kvEqual(got, w[:j+1]) {
-					c.Violate(scope, idx, "C06/"+form+"/early-stop", fmt.Sprintf("doc %d stop after %d: %d callbacks %q err %v", d, j, calls, got, err), cas)
+					c.Violate(scope, idx, "C06/"+form+"/early-stop", fmt.Sprintf("doc %d stop after %d: %d callbacks %.600q err %v", d, j, calls, got, err), cas)
 					return false
 				}
 			}
@@ -328,6 +328,66 @@ func runC06(c *explore.Ctx) {
 				}
 				want, _ := model.Merge([]*model.LSeg{lss[order[0]], lss[order[1]]}, []map[uint64]bool{nil, nil})
 				checkAllDocs(c, scope, int64(si), l, want, "merged-copy-two-segments", cas, false)
+			}
+		}
+	}
+	// COPY-BIG: block-copy merges in which the records pending in the output block reach 1.5 ... 17 MiB
+	// (one huge value, or 127 documents of 140 KiB) while the merged document count is not a multiple
+	// of 128, followed by more documents; both orders
+	{
+		type big struct {
+			n, size int
+		}
+		cases := []big{{2, 3 << 19}, {2, 3 << 20}, {2, 5 << 20}, {2, 9 << 20}, {2, 17 << 20}, {127, 140 << 10}}
+		for si, bc := range cases {
+			scope := "COPY-BIG"
+			if !c.MineIdx(scope, int64(si)) || c.Expired() {
+				continue
+			}
+			c.Eval()
+			c.Nontrivial()
+			b0 := make([]model.Doc, bc.n)
+			for i := range b0 {
+				v := []byte(fmt.Sprintf("p-stored-%d", i))
+				if i == 0 || bc.n > 2 {
+					v = make([]byte, bc.size)
+					for j := range v {
+						v[j] = byte('a' + (j/5+j/4093+i)%26)
+					}
+				}
+				b0[i] = model.Doc{gen.IDField("p", i), {N: "a", St: true, Val: v, Len: 1, Terms: []model.Term{{T: "x", Freq: 1}}}}
+			}
+			b1 := make([]model.Doc, 3)
+			for i := range b1 {
+				b1[i] = model.Doc{gen.IDField("q", i), {N: "a", St: true, Val: []byte(fmt.Sprintf("q-stored-%d", i)), Len: 1, Terms: []model.Term{{T: "x", Freq: 1}}}}
+			}
+			cas := fmt.Sprintf("COPY-BIG #%d: %d documents with stored values of %d bytes, then 3 small documents", si, bc.n, bc.size)
+			s0, err0 := build(b0, 1025)
+			s1, err1 := build(b1, 1025)
+			if err0 != nil || err1 != nil {
+				c.Violate(scope, int64(si), "C06/copy-big/build", fmt.Sprint(err0, err1), cas)
+				continue
+			}
+			segs := []segment.Segment{s0, s1}
+			lss := []*model.LSeg{model.Build(b0), model.Build(b1)}
+			for _, order := range [][]int{{0, 1}, {1, 0}, {1, 0, 1}} {
+				var in []segment.Segment
+				var ls []*model.LSeg
+				for _, o := range order {
+					in, ls = append(in, segs[o]), append(ls, lss[o])
+				}
+				mb, _, _, err := merge(in, make([]*roaring.Bitmap, len(in)), 1025)
+				if err != nil {
+					c.Violate(scope, int64(si), sigOf("C06", "copy-big-merge", "error: "+err.Error()), err.Error(), cas)
+					continue
+				}
+				l, err := loadMem(mb)
+				if err != nil {
+					c.Violate(scope, int64(si), sigOf("C06", "copy-big-load", "error: "+err.Error()), err.Error(), cas)
+					continue
+				}
+				want, _ := model.Merge(ls, make([]map[uint64]bool, len(in)))
+				checkAllDocs(c, scope, int64(si), l, want, "merged-copy-big", fmt.Sprintf("%s order=%v", cas, order), false)
 			}
 		}
 	}
